@@ -84,6 +84,7 @@ let () =
            Printf.printf "%s%s # refills=%s notwf=%d\n" op (Buffer.contents buf) (Buffer.contents refills) !nwf
        | [ "R" ] ->
            let ws = dump !st in
+           Printf.printf "B %s\n" (state_string !st);
            Printf.printf "R %d %s\n" (8 * List.length ws) (String.concat " " (List.map word_string ws));
            (match restore ws with
             | Some s' -> st := s'
